@@ -26,6 +26,13 @@ pub fn corner_projects() -> Vec<(String, Project, Vec<&'static str>)> {
         s.extend_from_slice(format!("second{le}-TXTPP#temp long_t.tmp{le}-b1{le}-b2{le}~{le}# TXTPP#write w1{le}last{le}").as_bytes());
         v.push((format!("long-first-line-{tag}"), proj(vec![("long.txt.txtpp", s)], vec!["long.txt.txtpp"], vec![], "long-first-line"), vec!["build", "needed"]));
     }
+    // 1b. CRLF first lines whose terminator lies exactly at / across the 8 KiB boundary of the reader buffer
+    for n in [8190usize, 8191, 8192] {
+        let mut s = Vec::new();
+        s.extend(std::iter::repeat(b'b').take(n));
+        s.extend_from_slice(b"\r\nsecond\r\n# TXTPP#write w\r\nlast\r\n");
+        v.push((format!("crlf-at-buffer-boundary-{n}"), proj(vec![("edge.txt.txtpp", s)], vec!["edge.txt.txtpp"], vec![], "crlf-at-boundary"), vec!["build"]));
+    }
     // 2. an included file larger than the buffer with a two-byte character across byte 8192, and across 16384
     {
         let mut inc = Vec::new();
@@ -134,6 +141,39 @@ pub fn corner_projects() -> Vec<(String, Project, Vec<&'static str>)> {
         let mut p = proj(vec![("ut.txt.txtpp", src.to_vec()), ("ut.txt", b"plain\n".to_vec())], vec!["ut.txt.txtpp"], vec![], "unused-tag-at-eof");
         p.expect_error = true;
         v.push((format!("tag-unused-at-end-of-file-{k}"), p, vec!["build", "needed", "verify"]));
+    }
+    // 16. a command whose quoted argument spans two directive lines: the indentation of the continuation line is part of it
+    {
+        let src = b"before\n# TXTPP#run printf '%s' \"one\n#    two\"\nafter\n".to_vec();
+        let cmd = "printf '%s' \"one    two\"".to_string();
+        v.push(("command-argument-keeps-continuation-indentation".to_string(), proj(vec![("ind.txt.txtpp", src)], vec!["ind.txt.txtpp"], vec![(cmd, vec![Act { kind: "lit", arg: "one    two".into() }])], "continuation-indentation"), vec!["build"]));
+    }
+    // 17. a cycle of `after` directives whose outputs on disk are consistent with the sources: build, only-if-needed and
+    //     verify all report the cycle
+    {
+        let mut p = proj(
+            vec![("ca.txt.txtpp", b"A\nTXTPP#after cb.txt\n".to_vec()), ("cb.txt.txtpp", b"B\nTXTPP#after ca.txt\n".to_vec()), ("ca.txt", b"A\n".to_vec()), ("cb.txt", b"B\n".to_vec())],
+            vec!["ca.txt.txtpp", "cb.txt.txtpp"],
+            vec![],
+            "after-cycle-consistent-outputs",
+        );
+        p.expect_error = true;
+        // verify twice: the two runs get the two trailing-newline settings, the outputs on disk match one of them
+        v.push(("after-cycle-with-consistent-outputs".to_string(), p, vec!["verify", "verify", "build", "needed"]));
+    }
+    // 18. clean over a source with a prefix-less `temp` line (an error for a build; text for clean): the file it names is
+    //     not touched, and the valid temp block after it is still cleaned
+    {
+        let src = b"TXTPP#temp keepme.txt\nline\n-TXTPP#temp real.tmp\n-body\n~\nend\n".to_vec();
+        let mut p = proj(vec![("cl.txt.txtpp", src), ("keepme.txt", b"hand-written\n".to_vec()), ("real.tmp", b"body".to_vec()), ("cl.txt", b"old output\n".to_vec())], vec!["cl.txt.txtpp"], vec![], "clean-after-ignored-error");
+        p.expect_error = true;
+        v.push(("clean-after-an-ignored-directive-error".to_string(), p, vec!["clean", "build"]));
+    }
+    // 19. after a dependency, a multi-line write whose continuation line spells an include of the file's own output: in the
+    //     first pass (collect mode) it is still an argument, not a directive
+    {
+        let g = b"TXTPP#include hdr2.md\n-TXTPP#write see:\n-TXTPP#include guide.md\n~\nend\n".to_vec();
+        v.push(("continuation-spelling-an-include-after-a-dependency".to_string(), proj(vec![("guide.md.txtpp", g), ("hdr2.md.txtpp", b"H\n".to_vec())], vec!["guide.md.txtpp", "hdr2.md.txtpp"], vec![], "continuation-include"), vec!["build", "needed"]));
     }
     v
 }
